@@ -201,6 +201,62 @@ def run_spawner(ck, tree, thorough):
     return recs
 
 
+def run_lspawn_relay(ck, tree, thorough):
+    """the real qmail-lspawn with a stand-in delivery program that prints arbitrary bytes (NULs, forged report frames) and ends
+    with any exit status or signal: what arrives on the channel to the queue manager, cut into frames"""
+    import shutil, subprocess, repframe
+    sys.path.insert(0, os.path.join(os.path.dirname(os.path.abspath(__file__)), "..", "lib"))
+    import c11_util
+    ids = sandbox.write_ids(ck.scratch.path("lids"), tree.root)
+    real = os.path.join(tree.root, "bin", "qmail-local")
+    keep = real + ".real"
+    if not os.path.exists(keep):
+        os.rename(real, keep)
+    shutil.copy(c11_util.STANDIN_LOCAL, real)
+    os.chmod(real, 0o755)
+    home = os.path.join(tree.root, "alias")
+    os.makedirs(home, exist_ok=True)
+    os.chown(home, sandbox.USERS["alias"], sandbox.GROUPS["nofiles"])
+    os.chmod(home, 0o755)
+    q = os.path.join(tree.root, "queue", "mess", "0")
+    os.makedirs(q, exist_ok=True)
+    with open(os.path.join(q, "1234"), "wb") as f:
+        f.write(b"Subject: x\n\nbody\n")
+    os.chown(os.path.join(q, "1234"), sandbox.USERS["qmailq"], sandbox.GROUPS["qmail"])
+    os.chmod(os.path.join(q, "1234"), 0o644)
+    recd, scd = ck.scratch.sub("lrec"), ck.scratch.sub("lscript")
+    os.chmod(recd, 0o777)
+    os.chmod(scd, 0o755)
+    outs = [b"", b"ok\n", b"text without newline", b"\0", b"\0\0", b"a\0b", b"ok\0\0Kdone\0", b"ok\0\x02Kdone\0", b"ok\0\x01Kagain\0", b"\0\x02K\0", b"x\0\x02Dforged\0y",
+            b"\x02Kstart\0", b"K\0K\0K\0", b"line\n\0\x07Zz\0\0\0", bytes(range(1, 256)), b"long " * 3000, b"e\0" * 50, b"\xff\0\xffK\0"]
+    ends = ["exit 0", "exit 100", "exit 111", "exit 1", "exit 99", "exit 112", "exit 255", "signal 9", "signal 11"]
+    cases = [(o, e) for o in outs for e in (ends if thorough else ends[:4] + ends[7:8])]
+    recs = []
+    for ci, (o, e) in enumerate(cases):
+        with open(os.path.join(scd, "hostile"), "wb") as f:
+            f.write(e.encode() + b"\n" + o)
+        with open(os.path.join(scd, "plain"), "wb") as f:
+            f.write(b"exit 111\nmailbox busy\n")
+        env = sandbox.shim_env(tree, ids=ids, extra={"VERIF_LOCAL_DIR": recd, "VERIF_LOCAL_SCRIPT_DIR": scd})
+        inp = b"".join(bytes([dn]) + b"0/1234\0s@s.test\0" + l + b"@local.test\0" for dn, l in ((1, b"hostile"), (2, b"plain")))
+        p = subprocess.run([tree.bin("qmail-lspawn"), "./Mailbox"], input=inp, stdout=subprocess.PIPE, stderr=subprocess.PIPE, env=env, cwd=tree.root, timeout=60)
+        out = p.stdout
+        if len(out) < 1:
+            raise Infra("qmail-lspawn wrote nothing: %r" % p.stderr[:300])
+        if c11_util.MARK_FAIL in out:
+            raise Infra("the stand-in qmail-local failed: %r" % out[:200])
+        frames = repframe.Framer().feed(0, out[1:])
+        ex, cr = (int(e.split()[1]), 0) if e.startswith("exit") else (0, 1)
+        recs.append({"kind": "lrun", "lcmds": [1, 2], "lexp": [[ex, cr], [111, 0]], "lframes": [[fr[0], fr[1] if len(fr) > 1 else 0] for fr in frames],
+                     "cmds": [], "limit": 0, "reports": [], "opens": [], "ran": [], "ex": 0, "cr": 0, "out": [], "relayed": 0,
+                     "desc": "%r / %s" % (o[:40], e), "raw": out[:200].hex()})
+        for n in os.listdir(recd):
+            os.unlink(os.path.join(recd, n))
+    os.unlink(real)
+    os.rename(keep, real)
+    return recs
+
+
 HOSTILE_KINDS = ["range", "unused", "wrongchan", "mangled", "oversized", "oversizedjunk", "split", "nuls", "burst", "random"]
 
 
@@ -300,6 +356,25 @@ def main():
         ck.cov["traces_validated_against_impl"] += len(srecs)
         ck.cov["spawner_command_streams"] = len(srecs)
         ck.cov["spawner_commands"] = sum(len(r["cmds"]) for r in srecs)
+        # the local spawner relaying what the delivery program printed
+        lrecs = run_lspawn_relay(ck, tree, thorough)
+        lfile = ck.scratch.path("lrun.ndjson")
+        write_ndjson(lfile, [{k: v for k, v in r.items() if k not in ("desc", "raw")} for r in lrecs])
+        lbad, lres = tlc_validate_records("SpawnRec", "SpawnRec.cfg", lfile, len(lrecs), chunk=10)
+        ck.add_tlc("SpawnRec(lspawn relay)", lres)
+        ck.cov["traces_validated_against_impl"] += len(lrecs)
+        ck.cov["lspawn_relay_runs"] = len(lrecs)
+        for r in lrecs:
+            ck.count(("lrun", r["desc"]), nontrivial=True)
+        ck.sample({"lspawn_program_output_and_end": lrecs[6]["desc"], "frames": lrecs[6]["lframes"]})
+        seenl = set()
+        for idx, why in lbad:
+            r = lrecs[idx - 1]
+            why = why.strip('"')
+            if why in seenl:
+                continue
+            seenl.add(why)
+            ck.violation("lspawn:%s:%s" % (why, r["desc"].replace(" ", "_")[:60]), "delivery program %s -> frames %s (channel bytes %s)" % (r["desc"], r["lframes"], r["raw"][:80]), r)
         ck.sample({"spawner_commands": [(c["dn"], bytes(c["mid"]).decode("latin1"), c["kind"]) for c in srecs[0]["cmds"][:6]],
                    "reports": srecs[0]["reports"][:6], "opened": [bytes(o).decode("latin1") for o in srecs[0]["opens"][:6]]})
         for idx, why in sbad:
